@@ -14,7 +14,8 @@ META = {
                "the residual converted at each narrowing site is TryFromIntError; R-4 integers reach the output only through "
                "Value::from(i64|u64) / i64::into(Integer) with no arithmetic on the way; R-5 at every call of a crate-local function from which a "
                "narrowing site is reachable, the Err side of each test of the result (`?`, match) reaches no success exit, and no "
-               "combinator replaces the error by a value.",
+               "combinator replaces the error by a value; R-6 the default class of each map decoder pushes (label, value) unchanged and "
+               "has no reject site of its own (uninterpreted integers are preserved).",
     "does_not_decide": "that ciborium's TryFrom<Integer> for i64/u64 is checked and From<i64|u64> lossless (dependency; trusted), "
                        "and that uninterpreted integers in extra parameters survive (they are never touched: C08 R-1)",
     "trusted_base": ["ciborium::value::integer::Integer TryFrom/From implementations", "rustc MIR cast semantics"],
@@ -251,6 +252,31 @@ def check(ctx):
     # ---- R-5 the rejection reaches the caller ---------------------------------------------------------------------------
     check_rejections_propagate(ctx, "R-5", {f.key for f, _, _ in narrow})
 
+    # ---- R-6 integers the crate does not interpret are preserved ----------------------------------------------------------
+    # the value of an extra parameter (any label outside the typed ones) is stored as received and never looked into: the
+    # default class of each map decoder has one effect - push((label, value)) - and no reject site of its own
+    from lib.mapcodec import MapDecoder
+    from lib import codec as _codec
+    for key, extras in (("header::Header::from_cbor_value_depth", "rest"),
+                        ("<key::CoseKey as common::AsCborValue>::from_cbor_value", "params"),
+                        ("<cwt::ClaimsSet as common::AsCborValue>::from_cbor_value", "rest")):
+        f = prog.fn(key)
+        md = MapDecoder(prog, f)
+        if md.problem:
+            ctx.cannot("R-6", "extras-untouched:%s" % key, "%s: %s" % (key, md.problem), where=f.span)
+            continue
+        dflt = []
+        for cls, effs in md.table.items():
+            if md.class_name(cls) == "default":
+                dflt.extend(effs)
+        pushed = (len(dflt) == 1 and dflt[0][0] == extras and dflt[0][1]["kind"] == "call" and dflt[0][1]["callee"] == _codec.VEC_PUSH
+                  and md.sym(dflt[0][1]["args"][1]) == ("tuple", (("sym", "label"), ("sym", "value"))))
+        rejects = sorted({k for c, k, o in md.reject_sites() if c == "default"})
+        ctx.ob("R-6", "extras-untouched:%s" % key, pushed and not rejects,
+               "an entry with any other label is stored as (label, value) unchanged and is rejected for nothing that depends on its "
+               "value (integers of any magnitude inside it survive)", where=f.span,
+               detail={"default_arm_effects": [(fl, e.get("callee")) for fl, e in dflt], "reject_sites_of_the_default_class": rejects})
+
 
 TRY_BRANCH = "core::ops::try_trait::Try::branch"
 OUT_OF_RANGE = ("aggr", "common::CoseError", "OutOfRangeIntegerValue", ())
@@ -261,7 +287,7 @@ def _failure_side(f, start, site):
     return reach_tracking_failures(f, start, {site})
 
 
-def check_rejections_propagate(ctx, rule, narrowing_fns):
+def check_rejections_propagate(ctx, rule, narrowing_fns, variants=("OutOfRangeIntegerValue",), what="an out-of-range integer", floor=20):
     """no caller turns the rejection of an integer into acceptance.
 
     S = crate-local functions from which a narrowing site (or a literal OutOfRangeIntegerValue) is reachable in the call
@@ -277,7 +303,8 @@ def check_rejections_propagate(ctx, rule, narrowing_fns):
     for f in prog.real_fns():
         for b in f.blocks:
             for s in b["stmts"]:
-                if s["k"] == "assign" and s["rv"]["k"] == "aggr" and s["rv"].get("variant") == "OutOfRangeIntegerValue":
+                if s["k"] == "assign" and s["rv"]["k"] == "aggr" and s["rv"].get("adt") == "common::CoseError" \
+                        and (variants is None or s["rv"].get("variant") in variants):
                     seeds.add(f.key)
     # reverse reachability over call edges (not fnref/closure creation: those are followed when called)
     rev = {}
@@ -344,8 +371,8 @@ def check_rejections_propagate(ctx, rule, narrowing_fns):
                     where_bad = ["the normal return"] if bad else []
                 callee = callee_path(f.blocks[site]["term"])
                 ctx.ob(rule, "propagates:%s:%s" % (f.key, callee), not bad,
-                       "a rejection by %s (which can be an out-of-range integer) leaves %s as an error: no success exit is "
-                       "reachable from the Err side of the test" % (callee, f.key), where=f.where(site),
+                       "a rejection by %s (which can be %s) leaves %s as an error: no success exit is "
+                       "reachable from the Err side of the test" % (callee, what, f.key), where=f.where(site),
                        detail={"test_block": d, "success_exits_reached": where_bad})
         # combinator chains on the result
         for bb, t in f.calls():
@@ -370,9 +397,9 @@ def check_rejections_propagate(ctx, rule, narrowing_fns):
                 ctx.ob(rule, "propagates:%s:%s" % (f.key, callee_path(f.blocks[site_of(recv)]["term"])), False,
                        "a rejection by %s is replaced by %s in %s" % (callee_path(f.blocks[site_of(recv)]["term"]), show(v)[:60], f.key),
                        where=f.where(bb))
-    ctx.count("calls whose rejection can be an out-of-range integer", nsites)
+    ctx.count("calls whose rejection can be %s" % what, nsites)
     ctx.count("tests of such results (`?`, match)", ntests)
-    ctx.floor(rule, "tested fallible integer-decoding calls", ntests, 20)
+    ctx.floor(rule, "tested calls whose rejection can be %s" % what, ntests, floor)
 
 
 def thorough(ctx):
